@@ -515,8 +515,11 @@ class SoupStrainer(ElementFilter):
                 #     [f"{k}={v}" for k, v in sorted(tag.attrs.items())]
                 # )
                 # print(f"Testing <{tag.name} {attrs}>{tag.string}</{tag.name}> against {rule}")
+                # The prefixed name is only compared with strings,
+                # patterns and True/False; a function is called once,
+                # with the Tag itself.
                 if rule.matches_tag(tag) or (
-                    prefixed_name is not None and rule.matches_string(prefixed_name)
+                    prefixed_name is not None and rule._base_match(prefixed_name)
                 ):
                     name_matches = True
                     break
